@@ -114,7 +114,7 @@ var checkC03Decode = register("C03/decode", func(c scoreCase3) string {
 	if !ok {
 		return ""
 	}
-	o, err := decode3(spec.Environmental, c.Input, c.NilRecv)
+	o, err := decodeCase3(spec.Environmental, c)
 	if err != nil || o.isNil() {
 		return fmt.Sprintf("well-formed vector rejected by the environmental decoder: %v", err)
 	}
@@ -419,7 +419,7 @@ func TestC03(t *testing.T) {
 				if vi%2 == 1 { // modified tokens ahead of the base tokens in every other variant
 					vec.Toks = append(append([]spec.Tok(nil), vec.Toks[8:]...), vec.Toks[:8]...)
 				}
-				cs := scoreCase3{Level: 2, NilRecv: vi%3 == 0, Input: vec.String()}
+				cs := scoreCase3{Level: 2, NilRecv: vi%3 == 0, PreQuery: vi%3 == 1, Input: vec.String()}
 				evals++
 				nt++
 				if c.rec.SampleCount() < 12 && i%1733 == 0 && vi == 0 {
@@ -601,7 +601,7 @@ func TestC03(t *testing.T) {
 		} else {
 			vec = gen.ValidV3(spec.Environmental).Draw(rt, "vector")
 		}
-		cs := scoreCase3{Level: 2, NilRecv: rapid.Bool().Draw(rt, "nilrecv"), Input: vec.String()}
+		cs := scoreCase3{Level: 2, NilRecv: rapid.Bool().Draw(rt, "nilrecv"), PreQuery: rapid.IntRange(0, 3).Draw(rt, "prequery") == 0, Input: vec.String()}
 		x := spec.IdxV3(vec)
 		nd := 0
 		for _, v := range x.E {
